@@ -117,7 +117,8 @@ CHECKS = {
             "That the engine's generators and hooks refine these models is decided by the monitors. Which event classes reach which hooks is the engine's own table "
             "(run_hooks), so a hook `on: before_update` attached to an act has no matching event. Hooks that strand their task are a C01 finding.", "5 C16"),
     "C17": ("Lean 4 K3 theorems on the row model (removeProc deletes exactly the task and process rows of that pid and no message; removals commute; removal iff "
-            "!keep_processes from the translated rule; actions on a removed process are refused first; rm_model removes exactly its events) + monitor on the rows of "
+            "!keep_processes from the translated rule; actions on a removed process are refused first; rm_model removes exactly its events; no orphan rows over any "
+            "history; the run-time predicate `retentionCheck` implies the theorem's predicates) + that Lean predicate evaluated on the rows of "
             "all collections after every operation of interleaved workloads, both keep settings, both back ends",
             "That the back ends' `pid =` query selects exactly the pid's rows rests on the C10 query theorem and differential runs. 'Finished' is the delivery of the "
             "complete/error event on the default channel.", "5 C17"),
